@@ -34,7 +34,7 @@ def go_quote(v):
     return "".join(out) + '"'
 
 
-def requests(values, idents):
+def requests(values, idents, all_ops=False):
     """[(case for harness promsel, position name, value, base id or None)]"""
     out = []
 
@@ -51,12 +51,12 @@ def requests(values, idents):
     k = 0
     for v in [MARKER] + values:
         for op in OPS:
-            if v != MARKER and (k % 4) != OPS.index(op):
+            if v != MARKER and not all_ops and (k % 4) != OPS.index(op):
                 continue      # every value under one operator (rotating), the marker under all
             prom("promsel.val" + op, "raw", op, "job", v, False, v)
             prof("profsel.val" + op, op, "job", v, False, v)
             for cluster in (False, True):
-                if v != MARKER and cluster != (k % 3 == 0):
+                if v != MARKER and not all_ops and cluster != (k % 3 == 0):
                     continue  # a third of the values in cluster mode, the marker in both
                 cl = ".cluster" if cluster else ""
                 prom("promsel.down%s.val%s" % (cl, op), "down", op, "job", v, cluster, v)
@@ -83,7 +83,7 @@ def run(ck, sq_cases, tag, values=None):
         seen.add(v)
         (idents if (".name" in c["site"] or ".label" in c["site"]) else vals).append(v)
     vals, idents = vals[:int(ck.n(260, 6000))], idents[:int(ck.n(60, 1500))]
-    reqs = requests(vals, idents)
+    reqs = requests(vals, idents, all_ops=values is not None)
     ok, out = ck.coq_make(["model/SqlPiecesSel.vo"])
     if not ck.obligation("model/SqlPiecesSel.v builds", ok, out[-1500:]):
         return
@@ -105,20 +105,39 @@ def run(ck, sq_cases, tag, values=None):
         o = json.loads(l)
         obs[o["id"]] = o
     lines, sqls, rejected = [], {}, {}
+    FLIP = 10**7
+
+    def flipped(ms):
+        """the same matchers with the oracle answer 'accepts the empty string' of the LAST regex matcher negated: C17's harness asks
+        Prometheus (labels.NewMatcher) and records false when Prometheus refuses the matcher, while the planners ask Go's regexp about
+        "^(?:" + v + ")$" (a value like `') /*x\\` closes the group itself: Prometheus refuses it, Go compiles it); the planner models
+        take the oracle as a parameter, so the tie looks for the oracle value under which model and code agree"""
+        out = [dict(m) for m in ms or []]
+        for m in reversed(out):
+            if m["op"] in ("=~", "!~"):
+                m["e"] = not m.get("e")
+                return out
+        return None
+
+    def line(i, c, o, ms):
+        t = o["tables"]
+        if c["kind"] == "sql":
+            return "(sql %d %s %s %s %s %s)" % (i, {"raw": "KRaw", "down": "KDownsample"}[c["sub"]], p17.sx_hints(o["hints"]),
+                                                p17.sx_ctx(o["ctx"], t), p17.sx_matchers(ms), p17.sx_empty_table(ms))
+        return "(prof %d %s %d %d %s %s %s)" % (i, p17.sx_str(t["prof_gin"]), o["ctx"]["from_ns"], o["ctx"]["to_ns"], p17.sx_bool(o["ctx"]["cluster"]),
+                                                p17.sx_list(["(%s %s %s)" % (p17.sx_str(x["n"]), p17.OPS[x["op"]], p17.sx_str(x["v"])) for x in ms or []]),
+                                                p17.sx_empty_table(ms))
     for i, (c, pos, v) in enumerate(reqs):
         o = obs.get(i)
         if not o or o.get("err") or not o.get("sql") or not o.get("tables"):
             rejected[pos] = rejected.get(pos, 0) + 1
             continue
-        t = o["tables"]
         sqls[i] = o["sql"].encode("utf8", "surrogateescape")
-        if c["kind"] == "sql":
-            lines.append("(sql %d %s %s %s %s %s)" % (i, {"raw": "KRaw", "down": "KDownsample"}[c["sub"]], p17.sx_hints(o["hints"]),
-                                                      p17.sx_ctx(o["ctx"], t), p17.sx_matchers(o.get("ms")), p17.sx_empty_table(o.get("ms"))))
-        else:
-            lines.append("(prof %d %s %d %d %s %s %s)" % (i, p17.sx_str(t["prof_gin"]), o["ctx"]["from_ns"], o["ctx"]["to_ns"], p17.sx_bool(o["ctx"]["cluster"]),
-                                                          p17.sx_list(["(%s %s %s)" % (p17.sx_str(x["n"]), p17.OPS[x["op"]], p17.sx_str(x["v"])) for x in o.get("sels") or []]),
-                                                          p17.sx_empty_table(o.get("sels"))))
+        ms = o.get("ms") if c["kind"] == "sql" else o.get("sels")
+        lines.append(line(i, c, o, ms))
+        fl = flipped(ms)
+        if fl is not None:
+            lines.append(line(i + FLIP, c, o, fl))
     data = os.path.join(ck.work, "sel_%s_cases.txt" % tag)
     open(data, "w").write("\n".join(lines) + "\n")
     rc, out = ck.ocaml_eval("c10sel_" + tag, "ExtractC10Sel.v", "c10sel", "let data_file = %s\n" % json.dumps(data), "c10sel_driver.ml")
@@ -139,9 +158,15 @@ def run(ck, sq_cases, tag, values=None):
     npieces = nvals = located = nsame = 0
     by_pos = {}
     accepts_empty = lambda i: [bool(m.get("e")) for m in (obs[i].get("ms") or obs[i].get("sels") or [])]
+    nflip = 0
+    flipped_ids = set()
     for i, sql in sqls.items():
         c, pos, v = reqs[i]
         r = res.get(i)
+        if (r is None or r[2] != sql) and res.get(i + FLIP) is not None and res[i + FLIP][2] == sql:
+            r = res[i] = res[i + FLIP]       # model = code under the other answer of the regex oracle
+            nflip += 1
+            flipped_ids.add(i)
         if r is None or r[2] != sql or not r[1]:
             mism.append(i)
             continue
@@ -162,7 +187,7 @@ def run(ck, sq_cases, tag, values=None):
         bp[0] += 1
         bp[1] += 1 if found else 0
         b = base.get(pos)
-        if b is not None and b != i and accepts_empty(b) == accepts_empty(i):
+        if b is not None and b != i and i not in flipped_ids and accepts_empty(b) == accepts_empty(i):
             # same planner branch as the marker: the pieces are the marker's with the marker replaced by the value
             exp = [(k, body.replace(MARKER.encode(), want) if k in ("L", "Q") else body) for k, body in res[b][3]]
             nsame += 1
@@ -192,6 +217,7 @@ def run(ck, sq_cases, tag, values=None):
                       "broken": "correspondence model/PromSel.v / model/ProfSel.v + model/SqlPieces.v vs reader/promql/transpiler, reader/prof/transpiler"}, no_input=True)
     t = ck.extra.setdefault("selection_tree_level_tie", {})
     t[tag] = {"requests": len(reqs), "statements": len(sqls), "rejected_by_parser_or_planner": rejected, "pieces": npieces, "value_pieces": nvals,
-              "requests_whose_value_is_located_in_a_value_piece": located, "requests_on_the_markers_branch_compared_piecewise": nsame,
+              "requests_whose_value_is_located_in_a_value_piece": located,
+              "statements_matched_under_the_other_answer_of_the_regex_oracle_(Prometheus_refuses_the_matcher,_Go_regexp_accepts_the_anchored_text)": nflip, "requests_on_the_markers_branch_compared_piecewise": nsame,
               "per_position_[statements,value_located,compared_with_marker]": by_pos}
     ck.coverage["evaluations"] += len(sqls)
